@@ -322,7 +322,12 @@ class Report:
                 if ok:
                     viols.append({'clause': w['clause'], 'what': w['what'] + ' | replay: ' + msg, 'witness': w, 'reproduced': True, 'source': 'REFUTE (bounded stand-in)'})
                 else:
-                    undecided.append(('refute:' + w['clause'], 'witness did not reproduce on replay (flaky?): ' + msg))
+                    # the stand-in observed a violation on the real code, but running the recorded witness again did not show it (a
+                    # non-deterministic failure, or a witness that does not carry everything the scope used): still a violation - reported
+                    # without a failing input that can be relied on.  (Never seen on the unchanged tree; demoting it to "undecided" once
+                    # hid a real detection, seeded change C20-4.)
+                    viols.append({'clause': w['clause'], 'what': w['what'] + ' | NOT reproduced when the witness was run again: ' + msg, 'witness': w, 'reproduced': False,
+                                  'source': 'REFUTE (bounded stand-in), not reproduced on replay'})
 
         # refusals without a concrete input are reported only if no concrete violation already explains the run
         if pending_refusals:
